@@ -142,7 +142,7 @@ func runC36(c *eng.Ctx) {
 			}
 		})
 		for _, r := range eng.Returns(fn) {
-			if len(r.Results) == 2 && eng.IsNilConst(r.Results[1]) {
+			if len(eng.RetResults(r)) == 2 && eng.IsNilConst(eng.RetResults(r)[1]) {
 				n++
 				callGuardedBy(c, "R2", eng.FuncName(fn)+"/return", r, re, true, "a loaded controller is returned only after Session.EnsureValid succeeded")
 			}
